@@ -117,9 +117,13 @@ def main(tier, seed):
                         else:
                             chk.inconclusive.append('public-API validation FAILED: %r offers %s, in scope %s' % (text, nres, exp))
                 chk.validated += okc
+        from . import modscope
+        modscope.W = scopes.W
+        modscope.part_c18(chk, tier, jobs, oracle)
     finally:
         oracle.close(); scopes.W.cleanup()
     chk.assumptions += [
+        'module accessors: ide::completion::complete_expr on its real MIR with the database havoc\'d and one module import (alias symbolic): the module must be looked up under the local accessor the module scope registers (alias, else accessor; C05 kernel) and rendered once; replayed through ide::Analysis::completions on a three-module workspace',
         'kernel claim: Resolver::values_names_in_scope (the separate walk the completion list is built from) contains a name exactly when Resolver::resolve_name finds a non-built-in definition for it, and both give the same definition - '
         'at every identifier position of %d function-body templates, for every assignment of local names and of two module-level names (a function and a constant) from the same pool, so that locals shadow module items' % len(scopes.TEMPLATES),
         'completion contexts, dot completion (needs inference), rendering and the replaced range need the database and are outside the claim (they are exercised only by the public-API validation of sampled paths)',
